@@ -279,6 +279,14 @@
             ("n", "{% macro w9() %}{{ caller(1) }}{% endmacro %}PRE{% call(n) w9() %}IN{% endcall %}POST"),
             ("n", "{% macro w9() %}{{ caller(1) }}{% endmacro %}PRE{% call(a9, n=RHS) w9() %}{{ n }}IN{% endcall %}POST"),
             ("n", "{% macro w9() %}{{ caller() }}{% endmacro %}PRE{% call(n=1, q9=RHS) w9() %}{{ q9 }}IN{% endcall %}POST"),
+            // call blocks: the callee expression and its arguments are evaluated in the ENCLOSING scope, where the block's own
+            // parameters (and `caller`) are not bound
+            ("n", "{% macro w9(a9=0) %}{{ caller(1) }}{% endmacro %}PRE{% call(n) w9(RHS) %}IN{% endcall %}POST"),
+            ("n", "{% macro w9(a9=0) %}{{ caller(1) }}{% endmacro %}PRE{% call(n) w9(a9=RHS) %}IN{% endcall %}POST"),
+            ("n", "{% macro w9(a9=0) %}{{ caller(1) }}{% endmacro %}PRE{% call(n) w9(*[RHS]) %}IN{% endcall %}POST"),
+            ("n", "{% macro w9(a9=0) %}{{ caller(1) }}{% endmacro %}PRE{% call(n) w9(**{'a9': RHS}) %}IN{% endcall %}POST"),
+            ("n", "{% macro w9(a9=0) %}{{ caller(1, 2) }}{% endmacro %}PRE{% call(q9, n) w9(RHS.x) %}IN{% endcall %}POST"),
+            ("caller", "{% macro w9(a9=0) %}{{ caller() }}{% endmacro %}PRE{% call w9(RHS) %}x{% endcall %}POST"),
             ("caller", "PRE{% macro w9(q9=RHS) %}IN{% endmacro %}{{ w9() }}{{ w9(q9=1) }}POST"), ("caller", "{% macro o9() %}{% macro w9() %}IN{% endmacro %}{{ w9() }}{% endmacro %}{{ o9() }}"),
             ("caller", "{% macro w9() %}{{ caller() }}{% endmacro %}PRE{% call w9() %}IN{% endcall %}POST"),
             ("super", "PRE{% block b9 %}IN{% endblock %}POST"), ("self", "PRE{% block b9 %}{{ self.b9 }}{% endblock %}POST"),
